@@ -10,17 +10,20 @@ from symex.runner import harness
 from .common import *
 
 
+LABELS = ["a", 0.5, 0, "", 1, "0", 0.0, None]     # the search must not care what a transition is labelled with
+
+
 def _graph(sp, n, maxdeg, first=None):
     tl = []
     for s in range(n):
         if s == 0 and first is not None:
-            tl.append([("a%d" % k, x) if k % 2 == 0 else (0.5, x) for k, x in enumerate(first)])
+            tl.append([(LABELS[(k + len(first)) % len(LABELS)], x) for k, x in enumerate(first)])
             continue
         deg = sp.choice("deg%d" % s, maxdeg + 1)
         tr = []
         for k in range(deg):
             x = sp.choice("t%d_%d" % (s, k), n)
-            tr.append(("a%d" % k, x) if (s + k) % 2 == 0 else (0.5, x))
+            tr.append((LABELS[(3 * s + k + x) % len(LABELS)], x))
         tl.append(tr)
     return tl
 
